@@ -346,7 +346,8 @@ func (m *vfC06Model) step(cur string, hops int, chain []string) {
 				m.shape = append(m.shape, fmt.Sprintf("cycle%d", clen))
 				m.finalName[cur] = true
 				m.add(vfC06Outcome{Pass: true})
-				m.add(vfC06Outcome{CanonIn: append([]string{}, chain...)})
+				// Any name on the way may be reported as the canonical one.
+				m.add(vfC06Outcome{CanonIn: append([]string{m.orig}, chain...)})
 			default:
 				if wild {
 					m.viaWild = true
